@@ -64,8 +64,13 @@ pub fn cli_main() {
     // machine's memory
     props::c11::crash::install(p.id);
     unsafe {
-        let lim = libc::rlimit { rlim_cur: 40 << 30, rlim_max: 40 << 30 };
-        libc::setrlimit(libc::RLIMIT_AS, &lim);
+        // soft limit only: the libFuzzer child of the thorough tier lifts it again
+        // (AddressSanitizer reserves terabytes of address space for its shadow memory)
+        let mut lim: libc::rlimit = std::mem::zeroed();
+        if libc::getrlimit(libc::RLIMIT_AS, &mut lim) == 0 {
+            lim.rlim_cur = (40u64 << 30).min(lim.rlim_max);
+            libc::setrlimit(libc::RLIMIT_AS, &lim);
+        }
     }
     if let Some(path) = replay {
         ctx.strict = true;
